@@ -64,6 +64,8 @@ def run_state(idx, rep, rid):
             named += 1
             if "reset" not in ev[:ev.index("name")]:
                 okp = False
+    if not okp and named > 0 and K.reset_before_every_call(idx, fp, "clear_run_coordination"):
+        okp = True   # (the reset stands in the callers, before the preparation is entered)
     rep.check(okp and named > 0, rid,
               f"{fp.file}::CsvPaths._prep_csvpath_results resets before naming the run",
               "run_time_str() is reached without a preceding clear_run_coordination(): a reused instance (or one whose previous run aborted) would write into the earlier run's directory", K.where(fp, fp.node))
